@@ -192,6 +192,14 @@ def check_mutants(rnd, valid, reader, real, pool, name, cap):
                 continue
             ev += 1
             got = real(m)
+            if name == "stamp" and '"' not in m and "\\" not in m:
+                for where in ("space", "time"):
+                    via = go.real_stamp_via_mapping(m, where)
+                    ev += 1
+                    if via != got:
+                        fails.append({"name": "bounded/stamp-near-miss",
+                                      "detail": "%r is read as %r by the stamp parser but as %r when written in the %s list of a mapping"
+                                                % (m, got, via, where), "witness": {"text": m, "list": where}})
             if name == "directive" and '"' not in m and "\\" not in m:
                 via = go.real_directive_via_mapping(s, m)       # the public entry point, valid spelling in the same mapping
                 ev += 1
